@@ -795,6 +795,18 @@ func runCheck(cfg *config) int {
 	} else {
 		infra = append(infra, detProblems...)
 	}
+	// violation files of workers that died on the watchdog are not in any report
+	if extra, err := filepath.Glob(filepath.Join(outDir, "viol-*.json")); err == nil {
+		seen := map[string]bool{}
+		for _, f := range violFiles {
+			seen[f] = true
+		}
+		for _, f := range extra {
+			if !seen[f] {
+				violFiles = append(violFiles, f)
+			}
+		}
+	}
 	sort.Strings(violFiles)
 
 	// ---- violations: one minimised replay file per distinct key
